@@ -670,4 +670,344 @@ def observeExtent : Val → R Val
       else .ok (.rat q)
   | _ => inval .directive
 
+/-! ## Characters: the terminals of grammar.parsimonious as a lexer, and a renderer with arbitrary blanks
+
+  pydsdl's PEG is scannerless; the token level of this model (`Tok`, `parse`) factors it into "terminals" and "rules".
+  `lexOne` is the terminal part: at one position it tries what the grammar tries there, in the grammar's order, every
+  terminal matching the way its regex / literal does:
+
+    * operators: the two-character forms before their one-character prefixes (`op2_cmp`: `<=` before `<`; `**` is reached
+      through `ex_exponential` before `op2_mul` sees `*`; `||`, `&&`, `==`, `!=`, `>=`);
+    * `expression_atom = "(" … / type / literal / identifier`, `literal = set / real / integer / string / boolean`:
+      real before integer (exponent notation before point notation), binary / octal / hexadecimal before decimal,
+      `true` / `false` before `identifier` (so `truex` is the literal `true` followed by `x`, as in the library);
+    * `_ = [ \t]+` is skipped between terminals (every place where the grammar has `_?`).
+
+  Not recognised (explicit `none`, like everywhere in this model): `type` atoms.  A word that starts like a primitive type
+  (`bool…`, `byte…`, `utf8…`, `uint8…`, `int3…`, `float1…`, `void2…`) is matched by the rule `type` first in the library,
+  so it is never an identifier there; versioned type names (`ns.T.1.0`) are not detected by this lexer at all. -/
+
+def isDigitC (c : Char) : Bool := decide ('0' ≤ c) && decide (c ≤ '9')
+def isNzDigitC (c : Char) : Bool := decide ('1' ≤ c) && decide (c ≤ '9')
+def isBinC (c : Char) : Bool := c == '0' || c == '1'
+def isOctC (c : Char) : Bool := decide ('0' ≤ c) && decide (c ≤ '7')
+def isHexC (c : Char) : Bool :=
+  isDigitC c || (decide ('a' ≤ c) && decide (c ≤ 'f')) || (decide ('A' ≤ c) && decide (c ≤ 'F'))
+def isZeroC (c : Char) : Bool := c == '0'
+def isIdentStart (c : Char) : Bool :=
+  (decide ('a' ≤ c) && decide (c ≤ 'z')) || (decide ('A' ≤ c) && decide (c ≤ 'Z')) || c == '_'
+def isIdentChar (c : Char) : Bool := isIdentStart c || isDigitC c
+def isBlank (c : Char) : Bool := c == ' ' || c == '\t'
+
+/-- a scanner returns the matched text and the rest of the input -/
+abbrev Scan := Option (List Char × List Char)
+
+def headIs (p : Char → Bool) : List Char → Bool
+  | [] => false
+  | d :: _ => p d
+
+/-- `(_?[p])*` -/
+def scanDigitsTail (p : Char → Bool) : List Char → List Char × List Char
+  | [] => ([], [])
+  | c :: r =>
+    if p c || (c == '_' && headIs p r) then
+      let x := scanDigitsTail p r
+      (c :: x.1, x.2)
+    else ([], c :: r)
+
+/-- `[p](_?[p])*` -/
+def scanDigits (p : Char → Bool) : List Char → Scan
+  | [] => none
+  | c :: r =>
+    if p c then
+      let x := scanDigitsTail p r
+      some (c :: x.1, x.2)
+    else none
+
+/-- `0[xX](_?[p])+` with the prefix letters given -/
+def scanPrefixed (p : Char → Bool) (lo up : Char) : List Char → Scan
+  | '0' :: c :: r =>
+    if c == lo || c == up then
+      let x := scanDigitsTail p r
+      if x.1.isEmpty then none else some ('0' :: c :: x.1, x.2)
+    else none
+  | _ => none
+
+/-- `literal_integer_decimal = (0(_?0)*)+ | [1-9](_?[0-9])*` -/
+def scanDecimal : List Char → Scan
+  | [] => none
+  | c :: r =>
+    if c == '0' then
+      let x := scanDigitsTail isZeroC r
+      some (c :: x.1, x.2)
+    else if isNzDigitC c then
+      let x := scanDigitsTail isDigitC r
+      some (c :: x.1, x.2)
+    else none
+
+/-- `literal_integer = binary / octal / hexadecimal / decimal` -/
+def scanInt (s : List Char) : Scan :=
+  match scanPrefixed isBinC 'b' 'B' s with
+  | some x => some x
+  | none =>
+    match scanPrefixed isOctC 'o' 'O' s with
+    | some x => some x
+    | none =>
+      match scanPrefixed isHexC 'x' 'X' s with
+      | some x => some x
+      | none => scanDecimal s
+
+/-- `literal_real_fraction = "." literal_real_digits` -/
+def scanFraction : List Char → Scan
+  | '.' :: r =>
+    match scanDigits isDigitC r with
+    | some x => some ('.' :: x.1, x.2)
+    | none => none
+  | _ => none
+
+/-- `literal_real_point_notation = (digits? fraction) / (digits ".")` -/
+def scanPoint (s : List Char) : Scan :=
+  match scanDigits isDigitC s with
+  | some x =>
+    match scanFraction x.2 with
+    | some y => some (x.1 ++ y.1, y.2)
+    | none =>
+      match x.2 with
+      | '.' :: r => some (x.1 ++ ['.'], r)
+      | _ => none
+  | none => scanFraction s
+
+/-- `literal_real_exponent = ~r"[eE][+-]?" literal_real_digits` -/
+def scanExponent : List Char → Scan
+  | [] => none
+  | e :: r =>
+    if e == 'e' || e == 'E' then
+      match r with
+      | [] => none
+      | sg :: r' =>
+        if sg == '+' || sg == '-' then
+          match scanDigits isDigitC r' with
+          | some x => some (e :: sg :: x.1, x.2)
+          | none => none
+        else
+          match scanDigits isDigitC r with
+          | some x => some (e :: x.1, x.2)
+          | none => none
+    else none
+
+/-- `(literal_real_point_notation / literal_real_digits)` -/
+def scanMantissa (s : List Char) : Scan :=
+  match scanPoint s with
+  | some x => some x
+  | none => scanDigits isDigitC s
+
+/-- `literal_real_exponent_notation = (point_notation / digits) exponent` -/
+def scanRealExp (s : List Char) : Scan :=
+  match scanMantissa s with
+  | some x =>
+    match scanExponent x.2 with
+    | some y => some (x.1 ++ y.1, y.2)
+    | none => none
+  | none => none
+
+/-- `literal_real = exponent_notation / point_notation` -/
+def scanReal (s : List Char) : Scan :=
+  match scanRealExp s with
+  | some x => some x
+  | none => scanPoint s
+
+/-- the rest of `'[^'\\]*(\\[^\r\n][^'\\]*)*'` after the opening quote `q`, closing quote included; `esc`: the previous
+    character was the backslash of an escape -/
+def scanStrBody (q : Char) : Bool → List Char → Scan
+  | _, [] => none
+  | true, d :: r =>
+    if d == '\r' || d == '\n' then none
+    else match scanStrBody q false r with
+      | some x => some (d :: x.1, x.2)
+      | none => none
+  | false, c :: r =>
+    if c == q then some ([c], r)
+    else match scanStrBody q (c == '\\') r with
+      | some x => some (c :: x.1, x.2)
+      | none => none
+
+/-- `[a-zA-Z0-9_]*` -/
+def scanWord : List Char → List Char × List Char
+  | [] => ([], [])
+  | c :: r =>
+    if isIdentChar c then
+      let x := scanWord r
+      (c :: x.1, x.2)
+    else ([], c :: r)
+
+/-- a literal string at the head of the input -/
+def dropPrefix : List Char → List Char → Option (List Char)
+  | [], s => some s
+  | _ :: _, [] => none
+  | x :: w, y :: s => if x == y then dropPrefix w s else none
+
+def nzDigitNext : Option (List Char) → Bool
+  | some (c :: _) => isNzDigitC c
+  | _ => false
+
+/-- `type_primitive` / `type_void` match at the head of the input (they are tried before `literal` and `identifier`) -/
+def typePrefix (s : List Char) : Bool :=
+  (dropPrefix ['b','o','o','l'] s).isSome || (dropPrefix ['b','y','t','e'] s).isSome ||
+  (dropPrefix ['u','t','f','8'] s).isSome ||
+  nzDigitNext (dropPrefix ['u','i','n','t'] s) || nzDigitNext (dropPrefix ['i','n','t'] s) ||
+  nzDigitNext (dropPrefix ['f','l','o','a','t'] s) || nzDigitNext (dropPrefix ['v','o','i','d'] s)
+
+/-- input that starts with an identifier character that is no digit: `type` (outside the model) / `literal_boolean` /
+    `identifier` -/
+def lexWord (s : List Char) : Option (Tok × List Char) :=
+  if typePrefix s then none
+  else match dropPrefix ['t','r','u','e'] s with
+    | some r => some (.lit (.bool true), r)
+    | none =>
+      match dropPrefix ['f','a','l','s','e'] s with
+      | some r => some (.lit (.bool false), r)
+      | none =>
+        let x := scanWord s
+        some (.id (String.ofList x.1), x.2)
+
+/-- input that starts with a digit or with `.`: `literal_real / literal_integer`, and `op2_attrib` for a lone `.` -/
+def lexNumber (s : List Char) : Option (Tok × List Char) :=
+  match scanReal s with
+  | some x => some (.lit (.real (String.ofList x.1)), x.2)
+  | none =>
+    match scanInt s with
+    | some x => some (.lit (.int (String.ofList x.1)), x.2)
+    | none =>
+      match s with
+      | '.' :: r => some (.dot, r)
+      | _ => none
+
+/-- the two-character operators -/
+def sym2Table : List ((Char × Char) × Sym) :=
+  [(('|','|'), .oror), (('&','&'), .andand), (('=','='), .eqeq), (('!','='), .neq), (('<','='), .le), (('>','='), .ge),
+   (('*','*'), .starstar)]
+
+def sym2 (c d : Char) : Option Sym := sym2Table.lookup (c, d)
+
+/-- the one-character operators and punctuation (`.` is handled with the numbers: `.5` is a real literal) -/
+def tok1Table : List (Char × Tok) :=
+  [('(', .lp), (')', .rp), ('{', .lb), ('}', .rb), (',', .comma),
+   ('!', .sym .bang), ('+', .sym .plus), ('-', .sym .minus), ('|', .sym .bar), ('^', .sym .caret), ('&', .sym .amp),
+   ('<', .sym .lt), ('>', .sym .gt), ('*', .sym .star), ('/', .sym .slash), ('%', .sym .percent)]
+
+def tok1 (c : Char) : Option Tok := tok1Table.lookup c
+
+/-- operators and punctuation, longest first -/
+def lexSym : List Char → Option (Tok × List Char)
+  | [] => none
+  | [c] => (tok1 c).map fun t => (t, [])
+  | c :: d :: r =>
+    match sym2 c d with
+    | some s => some (.sym s, r)
+    | none => (tok1 c).map fun t => (t, d :: r)
+
+/-- one terminal at the head of the (blank-free) input -/
+def lexOne (s : List Char) : Option (Tok × List Char) :=
+  match lexSym s with
+  | some x => some x
+  | none =>
+    match s with
+    | [] => none
+    | c :: r =>
+      if isDigitC c || c == '.' then lexNumber s
+      else if c == '\'' || c == '"' then
+        match scanStrBody c false r with
+        | some x => some (.lit (.str (String.ofList (c :: x.1))), x.2)
+        | none => none
+      else if isIdentStart c then lexWord s
+      else none
+
+def dropBlanks : List Char → List Char
+  | [] => []
+  | c :: r => if isBlank c then dropBlanks r else c :: r
+
+def lexF : Nat → List Char → Option (List Tok)
+  | 0, _ => none
+  | f+1, cs =>
+    match dropBlanks cs with
+    | [] => some []
+    | s =>
+      match lexOne s with
+      | none => none
+      | some x =>
+        match lexF f x.2 with
+        | none => none
+        | some ts => some (x.1 :: ts)
+
+/-- the token list of an expression text; `none`: some character sequence is no terminal of the modelled grammar part -/
+def lex (cs : List Char) : Option (List Tok) := lexF (cs.length + 1) cs
+
+/-- characters → tree -/
+def parseChars (cs : List Char) : Option Expr :=
+  match lex cs with
+  | some ts => parseTokens ts
+  | none => none
+
+def Sym.text : Sym → List Char
+  | .bang => ['!'] | .plus => ['+'] | .minus => ['-']
+  | .oror => ['|','|'] | .andand => ['&','&']
+  | .eqeq => ['=','='] | .neq => ['!','='] | .le => ['<','='] | .ge => ['>','='] | .lt => ['<'] | .gt => ['>']
+  | .bar => ['|'] | .caret => ['^'] | .amp => ['&']
+  | .star => ['*'] | .slash => ['/'] | .percent => ['%']
+  | .starstar => ['*','*']
+
+def Tok.text : Tok → List Char
+  | .lit (.int s) => s.toList
+  | .lit (.real s) => s.toList
+  | .lit (.str s) => s.toList
+  | .lit (.bool true) => ['t','r','u','e']
+  | .lit (.bool false) => ['f','a','l','s','e']
+  | .id s => s.toList
+  | .sym s => s.text
+  | .lp => ['('] | .rp => [')'] | .lb => ['{'] | .rb => ['}'] | .comma => [','] | .dot => ['.']
+
+/-- a token is well formed when its own text is one terminal that denotes it -/
+def Tok.ok (t : Tok) : Bool := decide (lexOne t.text = some (t, []))
+
+/-- may the character `c` follow the text of `t` directly without changing what `t`'s terminal matches? -/
+def Tok.canFollow (t : Tok) (c : Char) : Bool :=
+  match t with
+  | .lp | .rp | .lb | .rb | .comma => true
+  | .dot => !isDigitC c
+  | .sym s =>
+    match s with
+    | .star => c != '*'
+    | .lt | .gt | .bang => c != '='
+    | .bar => c != '|'
+    | .amp => c != '&'
+    | _ => true
+  | .lit (.str _) => true
+  | .lit (.bool _) => !isIdentChar c
+  | .id _ => !isIdentChar c
+  | .lit (.int _) => !isIdentChar c && c != '.'
+  | .lit (.real _) => !isIdentChar c && c != '.'
+
+/-- two adjacent tokens that need a blank between them (otherwise their texts fuse into other terminals) -/
+def needsBlank (t u : Tok) : Bool :=
+  match u.text with
+  | [] => false
+  | c :: _ => !t.canFollow c
+
+/-- the blanks in front of the i-th token (and after the last one): `false` a space, `true` a tab -/
+abbrev Spacing := Nat → List Bool
+
+def blankRun (bs : List Bool) : List Char := bs.map fun b => if b then '\t' else ' '
+
+/-- one space where the token `t` and the next token would fuse and `σ` puts no blank between them -/
+def glue (σ : Spacing) (i : Nat) (t : Tok) : List Tok → List Char
+  | u :: _ => if needsBlank t u && (σ (i+1)).isEmpty then [' '] else []
+  | [] => []
+
+/-- texts of the tokens, the `i`-th one preceded by the blanks `σ i` (and `σ n` after the last one) -/
+def renderFrom (σ : Spacing) : Nat → List Tok → List Char
+  | i, [] => blankRun (σ i)
+  | i, t :: ts => blankRun (σ i) ++ t.text ++ glue σ i t ts ++ renderFrom σ (i+1) ts
+
+def renderToks (σ : Spacing) (ts : List Tok) : List Char := renderFrom σ 0 ts
+
 end Ex
